@@ -396,6 +396,9 @@ int main(int argc, char **argv)
     if( NULL == parsec ) { fprintf(stderr, "parsec_init failed\n"); return 3; }
     adt = parsec_matrix_adt_new_rect(parsec_datatype_int32_t, 1, 1, 1);
     parsec_dtd_attach_arena_datatype(parsec, adt, &TILE_FULL);
+    /* the start-up skew of the processes (MPI / parsec initialisation on a loaded machine) must not be charged to the
+     * alarm of the first program */
+    if( world > 1 ) MPI_Barrier(MPI_COMM_WORLD);
 
     while( getline(&line, &cap, in) > 0 ) {
         cur_index++;
